@@ -209,7 +209,7 @@ def frame(cls, pc, num, content, indef):
     return bytes(ident(cls, pc, num) + length_def(len(content))) + content
 
 
-def content_of(T, v, rules, quirks=()):
+def content_of(T, v, rules, quirks=(), ine=False):
     """-> (contents octets, constructed?)"""
     k = T['k']
     if k == 'BOOLEAN':
@@ -259,15 +259,17 @@ def content_of(T, v, rules, quirks=()):
                 continue
             if isinstance(mode, tuple) and norm(ft, mode[1]) == norm(ft, v[n]):
                 continue
-            if 'omit-empty-optional-of' in quirks and mode == 'opt' and ft['k'] in ('SEQUENCEOF', 'SETOF') \
-                    and v[n] == [] and rules in ('CER', 'DER'):
-                continue     # quirk: the canonical encoders drop a present-but-empty OPTIONAL SEQUENCE OF
-            chunks.append((outer_tag(ft, v[n]), enc(ft, v[n], rules, quirks)))
+            # quirk 'omit-empty-optional-of': the canonical encoders drop a present OPTIONAL member whose constructed
+            # content is empty (the ifNotEmpty option; it is set per record member and inherited by the
+            # alternative chosen in a CHOICE member)
+            e = enc(ft, v[n], rules, quirks, ine=(mode == 'opt'))
+            if e:
+                chunks.append((outer_tag(ft, v[n]), e))
         if k == 'SET':
             chunks.sort(key=lambda c: c[0])
         return b''.join(c[1] for c in chunks), True
     if k in ('SEQUENCEOF', 'SETOF'):
-        chunks = [enc(T['elem'], x, rules, quirks) for x in v]
+        chunks = [enc(T['elem'], x, rules, quirks) for x in v]     # elements are never optional
         if k == 'SETOF':
             m = max([len(c) for c in chunks] or [0])
             chunks.sort(key=lambda c: c.ljust(m, b'\x00'))
@@ -278,7 +280,7 @@ def content_of(T, v, rules, quirks=()):
 NO_INDEF_CODECS = ('BOOLEAN', 'INTEGER', 'ENUMERATED', 'NULL', 'OID', 'REAL')
 
 
-def enc(T, v, rules='DER', quirks=()):
+def enc(T, v, rules='DER', quirks=(), ine=False):
     """reference encoder.  `quirks` reproduces *recorded* defects of the implementation byte-exactly so that
     a stand-in can tell a recorded finding from a new one ('explicit-primitive-eoo': an explicit wrapper
     around a primitive-only type gets a definite length followed by an end-of-octets marker in CER)."""
@@ -290,13 +292,15 @@ def enc(T, v, rules='DER', quirks=()):
             return out
         inner_done = True
     elif k == 'CHOICE':
-        out, constructed = enc(field_type(T, v[0]), v[1], rules, quirks), True
-        if not stack:
+        out, constructed = enc(field_type(T, v[0]), v[1], rules, quirks, ine=ine), True
+        if not stack or not out:
             return out
         inner_done = True
     else:
-        out, constructed = content_of(T, v, rules, quirks)
+        out, constructed = content_of(T, v, rules, quirks, ine)
         inner_done = False
+        if ine and not out and constructed and 'omit-empty-optional-of' in quirks and rules in ('CER', 'DER'):
+            return b''
     for i, (cls, num) in enumerate(reversed(stack)):
         pc = 32 if (constructed or i > 0 or inner_done) else 0
         if 'explicit-primitive-eoo' in quirks and rules == 'CER' and i > 0 and k in NO_INDEF_CODECS:
